@@ -53,7 +53,7 @@ contract("CircuitCompositeOperation.add", params=dict(self=CCO, operation=OP), r
 OTHER = "other._circuit_graph.get_node_iterator()"
 LEAFS = f"old({G}.leaf_nodes)"
 CHAINED = ("let(o.relation_link, lambda l: typeis(l, MultiRelationLink) and fresh(l) and l._relation_type == RelationType.FOLLOWED_BY and "
-           "l._relation_to_group == MultiRelationType.LATEST and len(l._reference_nodes) == len({leafs}) and "
+           "len(l._reference_nodes) == len({leafs}) and "
            "forall_int(0, len({leafs}), lambda k: l._reference_nodes[k] is {leafs}[k].operation))")
 HADJ = "old(_xs[j].operation.relation_link.reference_node is not None)"
 contract("CircuitCompositeOperation.extend", params=dict(self=CCO, other=CCO), returns=CCO, props=P, inst_depth=3, split=8,
@@ -81,7 +81,7 @@ contract("CircuitCompositeOperation.extend", params=dict(self=CCO, other=CCO), r
                     f"forall_int(0, _i, lambda j: exists({NODES}, lambda n: n.operation is _xs[j].operation))",
                     # the chain link itself (fixed before the loop)
                     f"old({G}.empty_graph) or let(relation, lambda l: typeis(l, MultiRelationLink) and l._relation_type == RelationType.FOLLOWED_BY and "
-                    f"l._relation_to_group == MultiRelationType.LATEST and len(l._reference_nodes) == len({LEAFS}) and "
+                    f"len(l._reference_nodes) == len({LEAFS}) and "
                     f"forall_int(0, len({LEAFS}), lambda k: l._reference_nodes[k] is {LEAFS}[k].operation))",
                     # links: done ones carry the chain link (or kept their own), pending ones are untouched
                     f"old({G}.empty_graph) or forall_int(0, _i, lambda j: {HADJ} or _xs[j].operation.relation_link is relation)",
